@@ -871,6 +871,49 @@ func runSaltPoolTime(e *core.Env) {
 		rec.Count("saltpool_time_ops", int64(len(trace)))
 		rec.Class("burst=%d/survivors=%d", burst, ns)
 	})
+	// volume: a busy server accepts tens of thousands of handshakes inside one replay window; none of their salts may be
+	// let go before its 60 s are over, however many came after it
+	nv := e.N(2, 10)
+	core.Parallel(e, "saltpool-time", nv, 2, func(j int) {
+		i := n + nb + j
+		r := core.NewRNG(e.Seed, "c03.saltpool-volume", j)
+		vol := []int{70000, 100000, 66000, 140000, 300000}[j%5]
+		rec.Begin("saltpool-time", i, fmt.Sprintf("volume=%d", vol))
+		rec.Eval()
+		var pool ss2022.SaltPool
+		base := time.Unix(1700000000, 0)
+		salt := func(id int) (s [32]byte) {
+			binary.BigEndian.PutUint64(s[:], uint64(id)+1)
+			binary.BigEndian.PutUint64(s[8:], uint64(j)|1<<40)
+			return
+		}
+		span := time.Duration(r.Pick(5, 20, 50)) * time.Second
+		at := func(id int) time.Duration { return time.Duration(int64(span) * int64(id) / int64(vol)) }
+		for id := 0; id < vol; id++ {
+			if !pool.Add(base.Add(at(id)), salt(id)) {
+				rec.Violate("saltpool-time", i, core.Sig("kind", "fresh_salt_refused", "part", "saltpool-time", "shape", "volume"), nil, "case %d: salt s%d of %d was never added and is refused", i, id, vol)
+				return
+			}
+		}
+		// replays of the earliest salts and of a sample of the others, all while the newest reading is < their +60 s
+		probe := []int{0, 1, 2, 63, 64, 65, 1023, 1024, 4095, 4096, 65535, 65536, vol - 1}
+		for k := 0; k < 200; k++ {
+			probe = append(probe, r.Intn(vol))
+		}
+		now := span + time.Duration(r.Pick(0, 1, 5))*time.Second // <= 55 s after the very first salt
+		for _, id := range probe {
+			if id >= vol {
+				continue
+			}
+			if pool.Add(base.Add(now), salt(id)) {
+				rec.Violate("saltpool-time", i, core.Sig("kind", "salt_forgotten_early", "part", "saltpool-time", "op", "add", "shape", "volume"), nil,
+					"case %d: %d salts were accepted within %v; salt s%d, accepted with reading %v, was accepted again with reading %v", i, vol, span, id, at(id), now)
+				return
+			}
+		}
+		rec.Count("saltpool_time_ops", int64(vol+len(probe)))
+		rec.Class("volume=%d/span=%v", vol, span)
+	})
 }
 
 func bucket(n int) string {
